@@ -143,6 +143,22 @@ def _gen_rigid(rng):
     q2[0] = 0.0
     pool["q"][0][0] = -0.0
     pool["q"].append(q2)
+    if rng.random() < 0.5:
+        # arguments that differ in one entry only, by values whose hashes coincide in CPython (hash(-1.0) == hash(-2.0),
+        # hash(1.0) == hash(2.0**61)): a memo keyed by a hash instead of the values cannot tell them apart
+        qa = _rb_state(rng)
+        qa[0] = -1.0
+        qb = qa.copy()
+        qb[0] = -2.0
+        ua = rng.normal(size=6)
+        ua[1] = -1.0
+        ub = ua.copy()
+        ub[1] = -2.0
+        pool["q"] = [qa.tolist(), qb.tolist()] + pool["q"][:1]
+        pool["u"] = [ua.tolist(), ub.tolist()] + pool["u"][:1]
+        pool["B"] = [[0.0, 0.0, -1.0], [0.0, 0.0, -2.0]] + pool["B"][:1]
+        pool["t"] = [-1.0, -2.0, 0.0]
+        pool["hash_twins"] = True
     methods = ["A_IB", "A_IB_q", "r_OP", "v_P", "J_P", "r_OP_q", "v_P_q", "a_P", "J_P_q", "kappa_P"]
     return {"target": "rigid", "pool": pool, "methods": methods, "state_ops": ["step_callback"]}
 
@@ -650,6 +666,8 @@ def execute(plan, out, log):
     out["steps"] = len(plan["ops"])
     out["nontrivial"] = had_hit and miss_after_hit
     variant = plan["target"]
+    if plan["pool"].get("hash_twins"):
+        out["probes"]["hash_twin_arguments"] += 1
     if plan["target"] == "s2s":
         variant += ":" + "+".join(plan["kinds"])
         if "frame" in plan["kinds"]:
